@@ -1020,10 +1020,10 @@ Proof.
   apply exponential_interval_mono; try assumption. lia.
 Qed.
 
-Theorem total_backoff b a draw : wf_backoff b = true -> (a < 2 ^ 64)%N ->
+Theorem total_backoff b a draw : wf_backoff b = true ->
   exists d, next_interval b a draw = Some d /\ next_backoff b a draw = Some d.
 Proof.
-  intros W _. destruct b as [d|c|c|f]; cbn [next_backoff next_interval].
+  intros W. destruct b as [d|c|c|f]; cbn [next_backoff next_interval].
   - exists d. split; reflexivity.
   - eexists. split; reflexivity.
   - exists (dur_sat draw). cbn [wf_backoff] in W.
@@ -1031,10 +1031,10 @@ Proof.
   - eexists. split; reflexivity.
 Qed.
 
-Theorem total_policy p a draw : wf_policy p = true -> (a < 2 ^ 64)%N ->
+Theorem total_policy p a draw : wf_policy p = true ->
   exists r, delay_for_attempt p a draw = Some r /\ (r = None <-> p = PNone).
 Proof.
-  intros W _. destruct p as [|d|c|c|f]; cbn [delay_for_attempt next_interval option_map].
+  intros W. destruct p as [|d|c|c|f]; cbn [delay_for_attempt next_interval option_map].
   - exists None. split; [reflexivity|tauto].
   - exists (Some d). split; [reflexivity|]. split; discriminate.
   - eexists. split; [reflexivity|]. split; discriminate.
@@ -1044,11 +1044,11 @@ Proof.
   - eexists. split; [reflexivity|]. split; discriminate.
 Qed.
 
-Theorem capped c a draw : wf_cfg c = true -> (a < 2 ^ 64)%N ->
+Theorem capped c a draw : wf_cfg c = true ->
   exists d, next_interval (Exponential c) a draw = Some d /\ 0 <= d <= DUR_MAX /\
             (forall k, max_interval c = Some k -> d <= k).
 Proof.
-  intros W _. exists (base_of c a). split; [apply next_interval_exp|].
+  intros W. exists (base_of c a). split; [apply next_interval_exp|].
   destruct (base_range c a W) as [Hb Hc]. split; [lia|].
   intros k Hk. rewrite Hk in Hb. cbn [cap_of] in Hb. lia.
 Qed.
@@ -1073,28 +1073,28 @@ Proof.
   exists l, h, (B2R64 draw). split; [exact FL|]. split; [exact FH|]. split; [exact FD|]. split; assumption.
 Qed.
 
-Theorem jitter_within_factor c a draw : wf_cfg c = true -> (a < 2 ^ 64)%N ->
+Theorem jitter_within_factor c a draw : wf_cfg c = true ->
   draw_in_range c a draw = true ->
   exists r, next_interval (ExponentialRandom c) a draw = Some r /\
             dur_sat (jitter_lo (base_of c a) (factor c)) <= r /\
             r <= dur_sat (jitter_hi (base_of c a) (factor c)) /\
             0 <= r <= DUR_MAX.
 Proof.
-  intros W _ D. destruct (draw_FR c a draw W D) as (l & h & x & FL & FH & FD & D1 & D2).
+  intros W D. destruct (draw_FR c a draw W D) as (l & h & x & FL & FH & FD & D1 & D2).
   exists (dur_sat draw). split; [rewrite next_interval_random; apply randomize_total; exact W|].
   split; [apply (dur_sat_mono _ _ _ _ FL FD D1)|].
   split; [apply (dur_sat_mono _ _ _ _ FD FH D2)|].
   apply (dur_sat_range draw _ FD).
 Qed.
 
-Theorem capped_jittered c a draw : wf_cfg c = true -> (a < 2 ^ 64)%N ->
+Theorem capped_jittered c a draw : wf_cfg c = true ->
   draw_in_range c a draw = true ->
   exists r, next_interval (ExponentialRandom c) a draw = Some r /\
             (forall k, max_interval c = Some k -> 0 <= base_of c a <= k) /\
             0 <= r <= dur_sat (jitter_hi (base_of c a) (factor c)) /\
             dur_sat (jitter_hi (base_of c a) (factor c)) <= DUR_MAX.
 Proof.
-  intros W Ha D. destruct (jitter_within_factor c a draw W Ha D) as (r & E & _ & Hr & Hr0).
+  intros W D. destruct (jitter_within_factor c a draw W D) as (r & E & _ & Hr & Hr0).
   exists r. split; [exact E|]. split.
   - intros k Hk. destruct (base_range c a W) as [Hb _]. rewrite Hk in Hb. exact Hb.
   - split; [lia|].
@@ -1103,11 +1103,11 @@ Proof.
     apply (dur_sat_range _ _ FH).
 Qed.
 
-Theorem monotone c a b draw : wf_cfg c = true -> (a <= b)%N -> (b < 2 ^ 64)%N ->
+Theorem monotone c a b draw : wf_cfg c = true -> (a <= b)%N ->
   exists da db, next_interval (Exponential c) a draw = Some da /\
                 next_interval (Exponential c) b draw = Some db /\ da <= db.
 Proof.
-  intros W Hab _. exists (base_of c a), (base_of c b).
+  intros W Hab. exists (base_of c a), (base_of c b).
   split; [apply next_interval_exp|]. split; [apply next_interval_exp|].
   apply base_mono; assumption.
 Qed.
@@ -1128,7 +1128,7 @@ Proof.
   - intros -> [->|(d & -> & Hd)]; cbn [negb]; [reflexivity|lia].
 Qed.
 
-Theorem reconnect_policies p a b draw : wf_policy p = true -> (a <= b)%N -> (b < 2 ^ 64)%N ->
+Theorem reconnect_policies p a b draw : wf_policy p = true -> (a <= b)%N ->
   match p with
   | PNone => delay_for_attempt p a draw = Some None
   | PFixed d => delay_for_attempt p a draw = Some (Some d) /\ delay_for_attempt p b draw = Some (Some d)
@@ -1145,19 +1145,18 @@ Theorem reconnect_policies p a b draw : wf_policy p = true -> (a <= b)%N -> (b <
   | PCustom f => delay_for_attempt p a draw = Some (Some (f a))
   end.
 Proof.
-  intros W Hab Hb. destruct p as [|d|c|c|f]; cbn [wf_policy] in W.
+  intros W Hab. destruct p as [|d|c|c|f]; cbn [wf_policy] in W.
   - reflexivity.
   - split; reflexivity.
   - exists (base_of c a), (base_of c b). split; [apply delay_exp|]. split; [apply delay_exp|].
     pose proof (base_mono c a b W Hab) as Hle.
     destruct (base_range c a W) as [Ra _]. destruct (base_range c b W) as [Rb Rc]. lia.
-  - assert (Ha : (a < 2 ^ 64)%N) by lia.
-    exists (dur_sat draw). split.
+  - exists (dur_sat draw). split.
     { rewrite delay_random, (randomize_total c a draw W). reflexivity. }
     pose proof (base_mono c a b W Hab) as Hle.
     destruct (base_range c a W) as [Ra _]. destruct (base_range c b W) as [Rb Rc].
     split; [lia|]. split; [lia|].
-    intros D. destruct (jitter_within_factor c a draw W Ha D) as (r & E & H1 & H2 & _).
+    intros D. destruct (jitter_within_factor c a draw W D) as (r & E & H1 & H2 & _).
     rewrite next_interval_random, (randomize_total c a draw W) in E.
     assert (Er : r = dur_sat draw) by congruence. subst r. lia.
   - reflexivity.
